@@ -323,12 +323,42 @@ func c14Boundary(c *Ctx, idx int) {
 		}
 		c.Nontrivial(text, gen.Describe(data))
 	}
+	// neighbours: v together with u = v - 1 and z = v + 1 (each in a kind that holds it exactly):
+	// orderings and equalities between adjacent large integers must not depend on the kind
+	if idx/len(c14Big)%len(c14BigTemplates) < len(c14NeighbourTemplates) {
+		ntext := c14NeighbourTemplates[idx/len(c14Big)%len(c14BigTemplates)]
+		bi := gen.Num(t).R.Num()
+		ut := new(big.Int).Sub(bi, big.NewInt(1)).String()
+		zt := new(big.Int).Add(bi, big.NewInt(1)).String()
+		ur, zr := c14BigReprs(ut), c14BigReprs(zt)
+		same := func(pool []any, like any, k int) any {
+			for _, p := range pool {
+				if fmt.Sprintf("%T", p) == fmt.Sprintf("%T", like) {
+					return p
+				}
+			}
+			return pool[k%len(pool)]
+		}
+		nb := map[string]any{"v": json.Number(t), "u": json.Number(ut), "z": json.Number(zt)}
+		lnb := c.LibSearch(ntext, nb)
+		for i, v := range reprs {
+			data := map[string]any{"v": v, "u": same(ur, v, i), "z": same(zr, v, i+idx)}
+			lv := c.LibSearch(ntext, data)
+			if !SameOutcome(lnb, lv, false) {
+				c.Report(Violation{Rule: "C14/representation-dependent", Expr: ntext, Data: gen.Describe(data), Got: ShowOut(lv), Want: ShowOut(lnb) + "  (as json.Number: v=" + t + ")", Features: map[string]string{"template": ntext, "stream": "boundary/neighbours"}})
+			}
+			c.Nontrivial(ntext, gen.Describe(data))
+		}
+	}
 }
+
+var c14NeighbourTemplates = []string{"sort([v, u, z])", "sort([z, v, u])", "sort([v, u])", "[u < v, v < z, u == v, v == z, u >= v, z <= v]", "max([u, v, z]) == z", "min([v, z, u]) == u", "sort_by([{k: v}, {k: u}, {k: z}], &k)[*].k", "max_by([{k: u}, {k: z}, {k: v}], &k).k == z", "min_by([{k: v}, {k: u}], &k).k == u",
+	"[v, u, z][?@ > v]", "[v, u, z][?@ == v]", "contains([u, z], v)", "[u, v] == [v, u]", "v - u", "z - v", "sort([z, v, u])[1] == v", "[u, v, z] | sort(@) | [0] == u", "sort([v, u, z, u, v])", "(u < v) && (v < z)", "group_by([{k: u}, {k: v}, {k: z}], &to_string(k == v)) | keys(@) | sort(@)"}
 
 func init() {
 	Register(&Property{
 		ID:            "C14",
-		Rule:          "documents whose number leaves are dyadic rationals k/2^m (|k| < 2^11, m <= 4: exact in json.Number, every int/uint width that fits, float32, float64 and decimal128) with 100 expression templates (+ - x / by powers of two, // %, unary signs, comparisons, == != incl. against literals and inside containers, contains, sort, sort_by, min/max(_by), sum, avg, abs/ceil/floor, truthiness, type, to_number, to_string round trip, filters, map, group_by and every integer-argument coercion fed from the document with integral, non-integral and negative values) and seeded random arithmetic expressions; baseline = all leaves as canonical json.Number; 6 random assignments of Go representations per case plus 7 uniform ones (every leaf float64 / float32 / int / int64 / uint / decimal128 / 'n.0') (json.Number spellings 5 / 5.0 / 5e0 / 50e-1, int..int64, uint..uint64, float32, float64, decimal128 in two exponents) must give the same outcome in value and error category (metamorphic, library against itself); boundary stream: 13 large integral values (2^31 .. 2^64, -2^63, 2^100) in every kind that holds them exactly through 24 templates (integer arguments, comparisons, sorting, arithmetic); non-trivial = at least one leaf changed representation and the result is non-null",
+		Rule:          "documents whose number leaves are dyadic rationals k/2^m (|k| < 2^11, m <= 4: exact in json.Number, every int/uint width that fits, float32, float64 and decimal128) with 100 expression templates (+ - x / by powers of two, // %, unary signs, comparisons, == != incl. against literals and inside containers, contains, sort, sort_by, min/max(_by), sum, avg, abs/ceil/floor, truthiness, type, to_number, to_string round trip, filters, map, group_by and every integer-argument coercion fed from the document with integral, non-integral and negative values) and seeded random arithmetic expressions; baseline = all leaves as canonical json.Number; 6 random assignments of Go representations per case plus 7 uniform ones (every leaf float64 / float32 / int / int64 / uint / decimal128 / 'n.0') (json.Number spellings 5 / 5.0 / 5e0 / 50e-1, int..int64, uint..uint64, float32, float64, decimal128 in two exponents) must give the same outcome in value and error category (metamorphic, library against itself); boundary stream: 13 large integral values (2^31 .. 2^64, -2^63, 2^100) in every kind that holds them exactly through 31 templates (integer arguments, comparisons, sorting, arithmetic), and each of them together with its neighbours v-1 and v+1 through 20 ordering/equality templates; non-trivial = at least one leaf changed representation and the result is non-null",
 		MinNontrivial: 2000,
 		Streams: []Stream{
 			{Name: "assignments", N: func(c *Ctx) int { return tierN(c, 20000, 1000000) }, Run: c14Run},
